@@ -441,16 +441,17 @@ func lemmaTypedGettersAgreeOnFound(st *SlimTrie, key string) (bool, bool, bool, 
 //@   ensures !(*opt.DedupValue && values != nil) ==> forall(k, 0, n, result[k])
 
 //@ func (*creator).setLeafPrefix
-//@   property C13 C17
-//@   opt kinds=post
+//@   property C13 C17 C08
+//@   opt kinds=post,frame
 //@   requires c != nil && c.option != nil && c.option.LeafPrefix != nil
+//@   modifies c.leafPrefixIndexes, c.leafPrefixLens, c.leafPrefixes, elems(c.leafPrefixIndexes), elems(c.leafPrefixLens), elems(c.leafPrefixes), maps
 //@   ensures !*c.option.LeafPrefix ==> len(c.leafPrefixes) == old(len(c.leafPrefixes)) && len(c.leafPrefixIndexes) == old(len(c.leafPrefixIndexes)) && len(c.leafPrefixLens) == old(len(c.leafPrefixLens))
 //@   ensures len(c.prefixes) == old(len(c.prefixes)) && len(c.prefix4BitLens) == old(len(c.prefix4BitLens)) && len(c.leaves) == old(len(c.leaves)) && len(c.leafIndexes) == old(len(c.leafIndexes))
 
 //@ func (*creator).setPrefix
 //@   property C08 C13 C17
-//@   opt kinds=post,pre(encStep)
-//@   requires c != nil && c.option != nil && c.option.InnerPrefix != nil && prefixBitFrom <= prefixBitTo && 0 <= prefixBitFrom && prefixBitTo <= 1000000000
+//@   opt kinds=post,pre(encStep),frame
+//@   requires c != nil && c.option != nil && c.option.InnerPrefix != nil && prefixBitFrom <= prefixBitTo
 //@   requires !*c.option.InnerPrefix ==> (prefixBitTo - prefixBitFrom)/4 <= 65535
 //@   modifies c.prefixIndexes, c.prefixByteLens, c.prefixes, c.prefix4BitLens, elems(c.prefixIndexes), elems(c.prefixByteLens), elems(c.prefixes), elems(c.prefix4BitLens)
 //@   ensures prefixBitTo == prefixBitFrom ==> len(c.prefixIndexes) == old(len(c.prefixIndexes)) && len(c.prefix4BitLens) == old(len(c.prefix4BitLens)) && len(c.prefixes) == old(len(c.prefixes))
@@ -458,10 +459,39 @@ func lemmaTypedGettersAgreeOnFound(st *SlimTrie, key string) (bool, bool, bool, 
 //@   ensures prefixBitTo != prefixBitFrom && !*c.option.InnerPrefix ==> len(c.prefix4BitLens) == old(len(c.prefix4BitLens)) + 2 && len(c.prefixes) == old(len(c.prefixes)) && len(c.prefixByteLens) == old(len(c.prefixByteLens))
 //@   ensures prefixBitTo != prefixBitFrom && *c.option.InnerPrefix ==> len(c.prefix4BitLens) == old(len(c.prefix4BitLens))
 
-//@ func (*creator).addLeafIndex
-//@   property C13 C17
+// addInner/newSlim: thin contracts that carry the step-length limit from the guard in newSlim to encStep
+// (a step is stored in 16 bits of 4-bit words whatever the node's word size).
+//@ func (*creator).addInner
+//@   property C08 C12
+//@   opt kinds=pre(setPrefix),frame
+//@   requires c != nil && c.option != nil && c.option.InnerPrefix != nil && prefixBitFrom <= prefixBitTo
+//@   requires !*c.option.InnerPrefix ==> (prefixBitTo - prefixBitFrom)/4 <= 65535
+//@   modifies c.nodeCnt, c.bigCnt, c.innerIndexes, c.innerSizes, c.innerBMs, elems(c.innerIndexes), elems(c.innerSizes), elems(c.innerBMs), maps
+//@   modifies c.prefixIndexes, c.prefixByteLens, c.prefixes, c.prefix4BitLens, elems(c.prefixIndexes), elems(c.prefixByteLens), elems(c.prefixes), elems(c.prefix4BitLens)
+
+//@ func newCreator
+//@   property C08 C12
 //@   opt kinds=post
+//@   ensures result != nil && result.option == opt && fresh(result)
+
+//@ func (*creator).build
+//@   havoc runs after the last node was added; none of the claimed obligations of newSlim depends on it (bounded-checked through NewSlimTrie)
+
+//@ func (*creator).buildLeaves
+//@   havoc runs after the last node was added; none of the claimed obligations of newSlim depends on it (bounded-checked through NewSlimTrie)
+
+//@ func newSlim
+//@   property C08 C12
+//@   opt kinds=pre(addInner)
+//@   requires opt != nil && opt.InnerPrefix != nil && opt.DedupValue != nil && opt.LeafPrefix != nil
+//@   requires len(keys) <= 100000000 && (bytesValues == nil || len(bytesValues) == len(keys))
+//@   loop 2 invariant c != nil && c.option == opt && opt.InnerPrefix != nil
+
+//@ func (*creator).addLeafIndex
+//@   property C13 C17 C08
+//@   opt kinds=post,frame
 //@   requires c != nil
+//@   modifies c.nodeCnt, c.leafCnt, c.leafIndexes, elems(c.leafIndexes)
 //@   ensures c.nodeCnt == old(c.nodeCnt) + 1
 //@   ensures !c.withLeaves ==> len(c.leafIndexes) == old(len(c.leafIndexes)) && len(c.leaves) == old(len(c.leaves)) && c.leafCnt == old(c.leafCnt)
 //@   ensures c.withLeaves ==> len(c.leafIndexes) == old(len(c.leafIndexes)) + 1 && c.leafCnt == old(c.leafCnt) + 1
